@@ -98,4 +98,3 @@ func (c *octx) getters() *eng.Violation {
 	return nil
 }
 
-func corpus(prop, tier string) []any { return nil }
